@@ -406,7 +406,7 @@ def _copy_sources_only2(s2, d, obj, depth: int = 0) -> bool:
 
 
 def _copy_site2(ctx, s2) -> None:
-    from ..sites2 import leaves, same_elements_of
+    from ..sites2 import leaves, same_elements_of, strip_seq
     from ..symx import NONE as SNONE
     f = s2.func
     it = s2.it
@@ -425,6 +425,8 @@ def _copy_site2(ctx, s2) -> None:
         if _is_param_of_top(s2, d):
             problems.append(f"{rs}.copy(<parameter>) relabels caller data with {rs}'s dtype")
             continue
+        if strip_seq(it, d) == ("tuple", ()):
+            continue                    # no element at all: any dtype is truthful
         se = same_elements_of(it, d)
         if not (se and se[0] == recv):
             problems.append(f"`{rs}.copy({s2.sh(d, 60)})` labels values that are not {rs}'s own elements with {rs}'s dtype")
